@@ -210,6 +210,58 @@ def search(res, tier, seed, deep=False):
                 if diff:
                     report("case-insensitive-settings:" + dn, dn + ".from_variable", dict(kind="case-kwargs", debiaser=dn, variable=var, kwarg=k, value=repr(v)), dict(differing_fields=diff),
                            "upper-case variable name with a keyword argument configures the debiaser differently from the lower-case name")
+    # 1c. two keyword arguments together: both override, whichever route from_variable takes
+    PAIRS = {"running_window_length": 45, "running_window_step_length": 3, "censoring_threshold": 1e-4, "cdf_threshold": 1e-3, "delta_type": "additive",
+             "pr_lower_threshold": 1e-5, "SSR": False, "running_window_mode": False, "ecdf_method": "step_function", "iecdf_method": "linear",
+             "running_window_over_years_of_cm_future_length": 7, "running_window_mode_over_years_of_cm_future": False, "trend_preservation": "relative",
+             "mapping_type": "nonparametric", "detrending": "no_detrending", "distribution_fit_kwargs": {"floc": 0}}
+    for dn, cls in cl.items():
+        names_f = [f.name for f in attrs.fields(cls) if f.name in PAIRS and not (dn == "ISIMIP" and f.name == "detrending")]
+        for var in ("tas", "pr", "PR"):
+            for i, k1 in enumerate(names_f):
+                for k2 in names_f[i + 1:]:
+                    kw = {k1: PAIRS[k1], k2: PAIRS[k2]}
+                    try:
+                        with warnings.catch_warnings():
+                            warnings.simplefilter("ignore")
+                            a = cls.from_variable(var, **kw)
+                        bad = [k for k in kw if getattr(a, k) != kw[k]]
+                    except Exception as e:
+                        # a combination the class itself rejects is not an override failure
+                        res.count("pair-rejected-by-validators"); continue
+                    res.case(("kwargs-pair", dn, var.lower()))
+                    if bad:
+                        report("kwargs-pair-dropped:" + dn, dn + ".from_variable", dict(kind="kwargs-pair", debiaser=dn, variable=var, kwargs={k: repr(v) for k, v in kw.items()}),
+                               dict(not_taken=bad, got={k: repr(getattr(a, k)) for k in bad}), "two keyword arguments given together: one of them did not override the default")
+    # 1d. invalid combinations are rejected at construction whatever the unrelated switches are
+    for rwm in (True, False):
+        for kwargs, what in [(dict(distribution=None, nonparametric_qm=False), "ISIMIP without a distribution and without non-parametric mapping"),
+                             (dict(distribution=None, nonparametric_qm=False, detrending=True), "ISIMIP without a distribution and without non-parametric mapping")]:
+            try:
+                with warnings.catch_warnings():
+                    warnings.simplefilter("ignore")
+                    ISIMIP(trend_preservation_method="additive", running_window_mode=rwm, **{"detrending": False, **kwargs})
+                ok = True
+            except ValueError:
+                ok = False
+            except Exception as e:
+                ok = False
+            res.case(("invalid-combo", "ISIMIP", rwm))
+            if ok:
+                report("invalid-accepted:ISIMIP", "ISIMIP.__init__", dict(kind="invalid-combo", running_window_mode=rwm, kwargs={k: repr(v) for k, v in kwargs.items()}), None, what + " was accepted")
+        for dn, cls in cl.items():
+            if dn in ("ISIMIP", "DeltaChange"): continue
+            try:
+                with warnings.catch_warnings():
+                    warnings.simplefilter("ignore")
+                    cls.from_variable("tas", running_window_mode=rwm, running_window_length=5, running_window_step_length=9)
+                ok = True
+            except Exception:
+                ok = False
+            res.case(("invalid-combo", dn, rwm))
+            if ok:
+                report("invalid-accepted:" + dn, dn + ".from_variable", dict(kind="invalid-combo", running_window_mode=rwm, running_window_length=5, running_window_step_length=9), None,
+                       "a window step longer than the window was accepted")
     # 2. kwargs override and 3. attribute assignment == constructor argument
     variables = ["tas", "pr"]
     budget = 10 ** 9 if tier == "thorough" or deep else 60
@@ -302,7 +354,25 @@ def replay(w):
             d = ISIMIP(trend_preservation_method="additive", distribution=scipy.stats.norm, nonparametric_qm=False, detrending=False)
         flags = [d.has_lower_bound, d.has_lower_threshold, d.has_upper_bound, d.has_upper_threshold]
         return any(flags), flags
+    if inp["kind"] == "invalid-combo":
+        try:
+            with warnings.catch_warnings():
+                warnings.simplefilter("ignore")
+                if "kwargs" in inp:
+                    ISIMIP(trend_preservation_method="additive", running_window_mode=inp["running_window_mode"], **{"detrending": False, **{k: eval(v) for k, v in inp["kwargs"].items()}})
+                else:
+                    cl[w["component"].split(".")[0]].from_variable("tas", running_window_mode=inp["running_window_mode"], running_window_length=5, running_window_step_length=9)
+            return True, "accepted"
+        except Exception as e:
+            return False, repr(e)[:200]
     cls = cl[inp["debiaser"]]
+    if inp["kind"] == "kwargs-pair":
+        kw = {k: eval(v) for k, v in inp["kwargs"].items()}
+        with warnings.catch_warnings():
+            warnings.simplefilter("ignore")
+            a = cls.from_variable(inp["variable"], **kw)
+        bad = [k for k in kw if getattr(a, k) != kw[k]]
+        return bool(bad), bad
     if inp["kind"] == "case-kwargs":
         import attrs
         with warnings.catch_warnings():
